@@ -456,6 +456,9 @@ class WebSocketApp:
                 self._callback(self.on_data, data, op_code, True)
                 self._callback(self.on_message, data)
 
+            if not self.keep_running:
+                # close() was called from a callback
+                return teardown()
             return True
 
         def check() -> bool:
